@@ -889,8 +889,45 @@ func r0212(c *an.Ctx, rule string) {
 		e[1] = append(e[1], b)
 		byFn[b.Parent()] = e
 	}
+	// a helper that makes one of the two tests counts, at its call sites, as that test; it is judged through its
+	// callers when it has any (the expected check extracted into a function of its own)
+	direct := map[*ssa.Function][2]bool{}
+	for f, e := range byFn {
+		direct[f] = [2]bool{len(e[0]) > 0, len(e[1]) > 0}
+	}
+	calledFrom := map[*ssa.Function][]*ssa.Function{}
+	for _, f := range c.Prog.FuncsIn(resPkg) {
+		if strings.HasSuffix(c.Prog.RelFile(f.Pos()), "_test.go") {
+			continue
+		}
+		an.Instrs(f, func(in ssa.Instruction) {
+			call, ok := in.(*ssa.Call)
+			if !ok {
+				return
+			}
+			g := call.Call.StaticCallee()
+			d, has := direct[g]
+			if g == nil || !has || d[0] == d[1] {
+				return // not a helper that makes exactly one of the tests
+			}
+			e, seen := byFn[f]
+			if !seen {
+				order = append(order, f)
+			}
+			if d[0] {
+				e[0] = append(e[0], call.Block())
+			} else {
+				e[1] = append(e[1], call.Block())
+			}
+			byFn[f] = e
+			calledFrom[g] = append(calledFrom[g], f)
+		})
+	}
 	for _, f := range order {
 		e := byFn[f]
+		if d := direct[f]; d[0] != d[1] && len(calledFrom[f]) > 0 && (len(e[0]) == 0 || len(e[1]) == 0) {
+			continue // a one-test helper: its callers are judged
+		}
 		ok := false
 		for _, a := range e[0] {
 			for _, b := range e[1] {
